@@ -254,6 +254,7 @@ func report(w *World, sum *propSummary, cfg RunConfig, verif string, seed int, w
 	// replay files for violations
 	exit := 0
 	replayDir := filepath.Join(verif, "replays", sum.ID)
+	os.RemoveAll(replayDir)
 	if len(violations) > 0 || !bOK {
 		os.MkdirAll(replayDir, 0o755)
 	}
